@@ -105,5 +105,9 @@ def _precheck(""")]},
                 log.warning('bad sense relations')
                 raise
 """)]},
+    {'name': 'memo-of-added-lexicons-outside-database', 'expect': 'C06-R6',
+     'edits': [E(A, "def _update_lookup_tables(", "_SEEN_RELTYPES: set = set()\n\n\ndef _update_lookup_tables("),
+               E(A, "    cur.executemany('INSERT OR IGNORE INTO relation_types VALUES (null,?)',\n                    [(rt,) for rt in sorted(reltypes)])",
+                    "    cur.executemany('INSERT OR IGNORE INTO relation_types VALUES (null,?)',\n                    [(rt,) for rt in sorted(reltypes - _SEEN_RELTYPES)])\n    _SEEN_RELTYPES.update(reltypes)")]},
 ]
 MUTANTS = [m for m in MUTANTS if 'xfail' not in m]
